@@ -95,16 +95,17 @@ example : Inv (([Op.add tA, Op.add tB, Op.mark [11] [tA] [12], Op.unmark [tA], O
 receipt has no transaction in the block's list — never on what `VMExecutor.Execute` returns. -/
 theorem mark_panics_iff (s : Pool) (receipts : List Nat) (txs : List Tx) (evicted : List Nat) :
     (s.markExecuted receipts txs evicted).2 = true ↔ ¬ Covered receipts txs := by
+  have hm : (receipts.map (fun h => (h, 1))).map (·.1) = receipts := by simp [List.map_map, Function.comp_def]
+  have key := markExecutedZ_res (s := s) (rs := receipts.map (fun h => (h, 1))) (txs := txs) (evicted := evicted)
+  rw [hm] at key
   unfold Pool.markExecuted
-  by_cases hr : receipts = []
-  · subst hr; simp [Covered]
-  · simp only [hr, if_false]
-    by_cases hc : Covered receipts txs
-    · obtain ⟨b', h1, _⟩ := markReceipts_covered receipts 0 s.batch hc
-      simp [h1, hc]
-    · have := markReceipts_uncovered receipts 0 s.batch hc
-      cases hm : markReceipts txs receipts 0 s.batch with
-      | mk b p => rw [hm] at this; simp at this; subst this; simp [hc]
+  cases hz : s.markExecutedZ (receipts.map (fun h => (h, 1))) txs evicted none with
+  | mk s' p => cases p with
+    | mk ws r =>
+      rw [hz] at key
+      simp only at key ⊢
+      rw [← key]
+      cases r <;> simp
 
 example : ((Pool.empty 10).markExecuted [11, 99] [tA] []).2 = true := by decide
 
@@ -295,7 +296,7 @@ theorem history_refines (limit : Nat) (s : Pool) (ch : List Block) (hr : Reach l
       simp only [hstep]; rw [this]; exact hx k
     | mark b =>
       obtain ⟨hcov, hfresh⟩ := hw
-      obtain ⟨s', he, _, hxs, _, _⟩ := markExecuted_ok (evicted := b.evicted) hi.batch hcov
+      obtain ⟨s', he, _, hxs, _, _, _⟩ := markExecuted_ok (evicted := b.evicted) hi.batch hi.attached hcov
       refine ⟨inv_markExecuted hi hcov, ?_, hcov, hfresh, hc⟩
       intro k
       simp only [hstep, he, executedOn, List.mem_append]
